@@ -32,15 +32,18 @@ LEVEL_TEXT = ("Lean theorems for all status contents, all operator sets and all 
               "kills, deliveries, passing time, foreign writes): paused_iff (+_step), exactly_top, at_most_one_active, "
               "equal_priority_both_paused, failover_exit, failover_kill (+ wake_at_deadline: sleep-to-deadline then self-touch), "
               "renewal (lifetime >= 2, 2*latency < min(5, lifetime-1) s; the lifetime = 1 corner is renewal_lifetime_one, a proved "
-              "counterexample replayed on the real code), withdraw_on_exit, dead_cleaned (+_step). The model is hand-written; its "
+              "counterexample replayed on the real code), withdraw_on_exit (the exit step itself) with late_self_touch_witness (the "
+              "sleeping call of an exited operator touches the record back: finding F2, replayed) and withdrawn_stays_partial "
+              "(permanent when no call was sleeping), dead_cleaned (+_step). The transition system delivers the current status "
+              "atomically: stale views (F4) and same-identity restarts (F5) are outside it. The model is hand-written; its "
               "decision function is compared with the real process_peering_event per call, keep-alive arithmetic exhaustively. "
               "The pause *effects* (streams closed, daemons stopped, nothing handled beyond queued events, nothing handled twice) "
               "are checked by the Python oracle on whole-operator simulations only (their models are C19/C09/C02).")
 THEOREMS = [("Kopf.Props.C13", "Kopf.C13." + n) for n in [
     "paused_iff", "turned_spec", "paused_iff_step", "exactly_top", "at_most_one_active", "equal_priority_both_paused",
     "failover_exit", "failover_kill", "wake_at_deadline", "expire_then_dead", "keepalive_period", "renewal",
-    "renewal_lifetime_one", "lifetime_zero_withdraws", "keepalive_writes", "withdraw_on_exit", "dead_cleaned",
-    "dead_cleaned_step"]]
+    "renewal_lifetime_one", "lifetime_zero_withdraws", "keepalive_writes", "withdraw_on_exit", "late_self_touch_witness",
+    "withdrawn_stays_partial", "dead_cleaned", "dead_cleaned_step"]]
 RULE = ("(1) direct calls: status of 0-5 records over a small identity pool (own record in/out), priority around the own one / "
         "missing / garbled, lifetime ints incl. 0,1,negative / numeric strings / garbage / missing, lastseen placed exactly on the "
         "deadline and +-1 tick / far past / future / missing / null / unparsable / naive & Z formats, unknown keys, non-mapping "
@@ -540,13 +543,15 @@ def oracle_history(ctx: Ctx, sc: dict, tr: dict, full: bool = False) -> dict:
                           and q.get("response") == 200 and abs(q["t"] + LAT - h["t"]) < 1e-9
                           and i["identity"] in ((q.get("payload") or {}).get("status") or {})
                           and ((q.get("payload") or {}).get("status") or {})[i["identity"]] is None]
-                if killer and prev is not None and H.live(prev, h["t"]) and killer[0]["who"] == i["who"] and not H.late:
-                    ctx.oracle_fail(f"operator {i['name']} deleted its own fresh record (lastseen {prev.get('lastseen')}) at {h['t']}: its first "
-                                    f"look at the status still showed a dead record of the same identity from a previous process, and the "
-                                    f"clean() of that one landed after its own first touch",
+                restarted = any(j["identity"] == i["identity"] and j["t_start"] < i["t_start"] for j in incs) or \
+                    (i["identity"] in (sc.get("pre_status") or {}))
+                if killer and prev is not None and H.live(prev, h["t"]) and restarted and not H.late:
+                    by = "itself" if killer[0]["who"] == i["who"] else killer[0]["who"]
+                    ctx.oracle_fail(f"the fresh record of restarted operator {i['name']} (lastseen {prev.get('lastseen')}) was deleted at {h['t']} by "
+                                    f"{by}: the clean() was aimed at the dead record the previous process left under the same identity, "
+                                    f"and landed after the first touch of the new process",
                                     {"scenario": sc, "inc": i["inc"], "t": h["t"]},
-                                    {"site": "peering.process_peering_event",
-                                     "shape": "own fresh record deleted by the clean() of a stale record of the same identity"})
+                                    {"site": "peering.clean", "shape": "fresh record of a restarted operator deleted by a clean() aimed at the stale record of the same identity"})
                 elif killer and prev is not None and H.live(prev, h["t"]):
                     ctx.oracle_fail(f"the fresh record of running operator {i['name']} (lastseen {prev.get('lastseen')}, lifetime "
                                     f"{prev.get('lifetime')}) was deleted at {h['t']} by {'itself' if killer[0]['who'] == i['who'] else killer[0]['who']}"
@@ -630,13 +635,6 @@ def oracle_history(ctx: Ctx, sc: dict, tr: dict, full: bool = False) -> dict:
             reqs_by_who.setdefault(r["who"], []).append(r)
     kh = tr["kex_history"]
 
-    def version_at(name: str, t: float) -> str | None:
-        out = None
-        for h in kh.get(name, []):
-            if h["t"] <= t:
-                out = h["rv"] if h["event"] != "DELETED" else None
-        return out
-
     calls_by_inc: dict[int, list[dict]] = {}
     for c in tr["calls"]:
         calls_by_inc.setdefault(c["inc"], []).append(c)
@@ -684,10 +682,8 @@ def oracle_history(ctx: Ctx, sc: dict, tr: dict, full: bool = False) -> dict:
                     for d in r.get("delivered", []):
                         got.add((d[2], d[3]))
                 elif r["method"] == "GET":
-                    for name in kh:
-                        v = version_at(name, r["t"] + LAT)
-                        if v is not None:
-                            got.add((name, v))
+                    for name, v in r.get("listed", []):
+                        got.add((name, v))
             for c in calls_by_inc.get(i["inc"], []):
                 if c["kind"] in ("create", "update") and p0 < c["t"] < p1 and (c["name"], c["rv"]) not in got:
                     fail(f"paused operator {i['name']} ran handler {c['id']} at {c['t']} on {c['name']}@{c['rv']}, a version it had not "
@@ -766,6 +762,9 @@ def _shape_of_call(status: Any, me: str, prio: int, toggle: Any, impl: Any) -> d
 
 def _run_pool(items: list[dict], wall: float) -> list[dict]:
     res = sim_c13.run_many(items, wall=wall)
+    for k, (it, r) in enumerate(zip(items, res)):
+        if "trace" not in r:        # a worker lost under load: once more, alone; a real stall repeats and is reported
+            res[k] = sim_c13.run_many([it], wall=wall, jobs=1, batch=1)[0]
     for it, r in zip(items, res):
         if "trace" not in r:
             raise RuntimeError(f"simulation worker failed on {it.get('kind', 'history')} item: {str(r)[:3000]}")
